@@ -311,6 +311,18 @@ package rules
 //@   ensures ret1 == nil ==> gcomp.n == old(gcomp.n) + 1 && gcomp.arg0[old(gcomp.n)] == pattern && len(gcomp.arg1[old(gcomp.n)]) == 1 && gcomp.arg1[old(gcomp.n)][0] == separator
 //@   ensures ret1 == nil ==> typeIs(ret0, *globMatcher) && unbox(ret0, *globMatcher) != nil && unbox(ret0, *globMatcher).compiled == gcomp.ret0[old(gcomp.n)]
 
+// "the method (with `ALL` expansion and `!` exclusions)": an excluded method never matches, and a
+// method matches only if it is listed (or ALL is and it is one of the nine HTTP methods) and not
+// excluded. (len(ret0) == 0 || inList(ret0, x)) is what methodMatcher.Matches decides. These two
+// clauses are beyond the solvers (sort, compact, filter, subtract and map over the list); the
+// bounded stand-in "method-matcher" of contracts/props/C03.json decides them up to its bound.
+//@ spec inList(l []string, x string) bool = exists i int :: 0 <= i && i < len(l) && l[i] == x
+//@ spec stdMethod(x string) bool = x == "GET" || x == "HEAD" || x == "POST" || x == "PUT" || x == "PATCH" || x == "DELETE" || x == "CONNECT" || x == "OPTIONS" || x == "TRACE"
+//@ func createMethodMatcher
+//@   props C03
+//@   ensures ret1 == nil ==> forall x string :: old(inList(methods, "!" + x)) ==> !(len(ret0) == 0 || inList(ret0, x))
+//@   ensures ret1 == nil && len(methods) != 0 ==> forall x string :: (len(ret0) == 0 || inList(ret0, x)) ==> (old(inList(methods, x)) || (old(inList(methods, "ALL")) && stdMethod(x))) && !old(inList(methods, "!" + x))
+
 // any-of over typed matchers: accepts a value exactly when one of its members does
 //@ func (anyOfMatcher).match
 //@   props C03
